@@ -1,5 +1,6 @@
 import JT.Proof.Reassembly
 import JT.Props.C01
+import JT.Gen.ConcShape
 /-!
 # C14 — missing sub-packages are re-requested exactly, stale transfers expire
 
@@ -149,4 +150,9 @@ theorem tick_pointwise (now : Nat) (recs : List Transfer) (t' : Transfer) :
   constructor
   · rintro ⟨t, ⟨ht, h1⟩, rfl⟩; exact ⟨t, ht, by simpa using h1, rfl⟩
   · rintro ⟨t, ht, h1, rfl⟩; exact ⟨t, ⟨ht, by simpa using h1⟩, rfl⟩
+
+/-- every re-request the parser produces is handed to the writer: the reader's send on `reissuePackChan` is a plain
+blocking send (read off the source on every run) -/
+theorem rerequests_not_dropped : Gen.reissueSendBlocking = true := by decide
+
 end JT.C14
